@@ -185,13 +185,13 @@ theorem readElem_long (dec : Dec) (p pre rest : Bytes) (eo el : Nat) (hp : p.len
 /-- the code's rule for an empty varlena element is the Spec's -/
 theorem decodeVarlenaElem_view (dec : Dec) (p : Bytes) (eo : Nat) :
     decodeVarlenaElem dec p eo = elemView dec eo (.short p) ∧ decodeVarlenaElem dec p eo = elemView dec eo (.long p) := by
-  unfold decodeVarlenaElem emptyValue
+  unfold decodeVarlenaElem
   by_cases hp : p.length = 0
   · by_cases h1 : eo = 25 ∨ eo = 1043 ∨ eo = 1042 ∨ eo = 142
-    · simp [elemView, hp, h1]
+    · simp [elemView, emptyValue, hp, h1]
     · by_cases h2 : eo = 17
-      · simp [elemView, hp, h2]
-      · simp [elemView, hp, h1, h2]
+      · simp [elemView, emptyValue, hp, h2]
+      · simp [elemView, emptyValue, hp, h1, h2]
   · simp [elemView, hp]
 
 /-- one stored element of a well-formed array, whatever its form -/
@@ -284,10 +284,11 @@ theorem encArray_length (a : PgArray) (hlb : a.lbounds.length = a.dims.length) :
   simp only [encArray, List.length_append, le_length, encDims_length, encLbounds_length, hlb, PgArray.ndim]
   omega
 
-theorem decodeArray_empty (dec : Dec) (a : PgArray) (hd : a.dims = []) (hl : a.lbounds = []) (he : a.elems = []) (eo : Nat) :
+theorem decodeArray_empty (dec : Dec) (a : PgArray) (hd : a.dims = []) (hl : a.lbounds = []) (he : a.elems = [])
+    (hb : a.bitmap = false) (eo : Nat) :
     decodeArray dec (encArray a) eo = .ok (.arr []) := by
   have hraw : encArray a = [] ++ (le 4 0 ++ (le 4 0 ++ le 4 a.et.typOid)) := by
-    simp [encArray, PgArray.ndim, PgArray.dataoffset, PgArray.hasNulls, PgArray.bitmapPart, hd, hl, he, encDims, encLbounds, encElems]
+    simp [encArray, PgArray.ndim, PgArray.dataoffset, PgArray.hasNulls, PgArray.bitmapPart, hd, hl, he, hb, encDims, encLbounds, encElems]
   unfold decodeArray isEmptyArray
   rw [hraw, if_pos (by simp), i32At_append [] _ 0 0 rfl (by decide)]
   rfl
@@ -408,7 +409,10 @@ theorem decodeArray_nonempty (dec : Dec) (a : PgArray) (eo : Nat)
     rw [parseElems_enc dec a.et a.et.typalign hal eo none a.elems (hdrPart a) 0 (12 + a.dims.length * 8) hwf
       (by unfold alignRel; rw [alignGo_eq _ _ hal, alignUp_of_mod _ _ hal (mod_of_mod8 _ _ hal (by omega))]; omega)
       (mod_of_mod8 _ _ hal (by omega))
-      (fun j e hj => by rw [nullAt_none, any_isNone_false a.elems hN j e hj])]
+      (fun j e hj => by
+        have hany : a.elems.any Option.isNone = false := by
+          unfold PgArray.hasNulls at hN; rw [Bool.or_eq_false_iff] at hN; exact hN.2
+        rw [nullAt_none, any_isNone_false a.elems hany j e hj])]
   | true =>
     have hdo : a.dataoffset = a.dataStart := by unfold PgArray.dataoffset; rw [hN]; rfl
     rw [hN] at hge
@@ -449,7 +453,7 @@ theorem decodeType_enc (dec : Dec) (a : PgArray) (h : a.WF) :
   by_cases hd : a.dims = []
   · rw [if_pos hd] at hcnt
     have hl : a.lbounds = [] := List.eq_nil_of_length_eq_zero (by rw [hlb, hd]; rfl)
-    rw [decodeArray_empty dec a hd hl hcnt, hcnt]; rfl
+    rw [decodeArray_empty dec a hd hl hcnt.1 hcnt.2, hcnt.1]; rfl
   · rw [if_neg hd] at hcnt
     exact decodeArray_nonempty dec a a.et.decodeAs hd h6 hlb hds hcnt hmax hwf hal hlay
 
